@@ -1426,7 +1426,9 @@ class ProgramData:
                         if option_value.count("=") != 1:
                             raise RuntimeError("Invalid flag setting " + option_value)
                         flag_name, set_to = option_value.split("=")
-                        set_to = set_to in ["yes", "on"]
+                        if set_to not in ["yes", "on", "true", "1", "no", "off", "false", "0"]:
+                            raise RuntimeError("Invalid flag setting " + option_value)
+                        set_to = set_to in ["yes", "on", "true", "1"]
                     option_value = flag_name
                     flag_name = flag_name.upper().replace("-", "_")
                 if flag_name not in ProgramFlag.__members__:
